@@ -94,7 +94,9 @@ void sk_free(void* p);
 int sk_heap_owns(const void* p);
 uint64_t sk_heap_trace(void);            /* digest of (op,size) sequence since reset */
 void sk_heap_set_yield(void (*fn)(void));
-void sk_heap_use_arena(int on);          /* 0: layer over the real malloc (tsan) */
+void sk_heap_use_arena(int on);
+extern int (*sk_heap_filter)(size_t n, int op);
+extern int sk_restart_requested;       /* set by an engine: finish this worker after the current run */          /* 0: layer over the real malloc (tsan) */
 
 /* normalise memWipe's hidden counter to a fixed value using only memWipe */
 void sk_wipe_normalise(void);
